@@ -453,6 +453,7 @@ def _build(spec, rso_mod=None, variant=None):
             vec_done |= {k_ for k_, _ in grp}
             _hook(variant, 'row', B)
     B.vectorized = sorted(vec_done)
+    late_forall = []
     for k_, row in rows:
         if k_ in vec_done:
             continue
@@ -467,7 +468,7 @@ def _build(spec, rso_mod=None, variant=None):
         sense = row['sense']
         own = None
         if row.get('set') is not None:
-            own = lambda: S.build_rsome(row['set'], zpart(spec['nzr']), rng)
+            own = lambda row=row: S.build_rsome(row['set'], zpart(spec['nzr']), rng)
         if sense == 'eq' and variant.get('split_eq'):
             cs = [lhs <= rhs, lhs >= rhs]
         elif sense == 'eq' and form == 3 and scale == 1.0:
@@ -487,7 +488,13 @@ def _build(spec, rso_mod=None, variant=None):
             else:
                 cs = [np.array(rhs) >= lhs if le else np.array(rhs) <= lhs]
         for c in cs:
-            if own is not None:
+            if own is not None and variant.get('late_forall') and type(c).__name__ == 'RoConstr' \
+                    and not variant.get('st_nested'):
+                # the constraint enters the model with the default set; its own set is attached
+                # to the same object later (forall() sets the support in place), after whatever
+                # the hook does in between
+                late_forall.append((c, own))
+            elif own is not None:
                 c = c.forall(own())
             B.user_constr.append(c)
             if variant.get('st_nested'):
@@ -496,6 +503,11 @@ def _build(spec, rso_mod=None, variant=None):
                 m.st(c)
     if pending_st:        # st() recurses into nested collections
         m.st([pending_st[:1], (tuple(pending_st[1:2]), [pending_st[2:]])])
+    if late_forall:
+        _hook(variant, 'late_forall', B)
+        for c, own in late_forall:
+            c.forall(own())
+    B.late_forall = len(late_forall)
     return B
 
 
